@@ -96,6 +96,7 @@ type spConn struct {
 	cver     map[string]uint64
 	tracked  map[string]bool
 	ended    map[string]string // why the connection stopped tracking the key: untrack / removal / unsubscribe
+	app      map[string]int    // payload the application has per key (kept over untrack when it re-tracks with its version)
 	subbed   bool
 	neg      bool
 	consumed int
@@ -356,7 +357,7 @@ func (r *spRunner) newConn(name string) (*spConn, error) {
 	if conn.Connect() == nil {
 		return nil, fmt.Errorf("connect failed")
 	}
-	c := &spConn{name: name, conn: conn, reqs: map[uint32]spFrame{}, held: map[string]*holder{}, cver: map[string]uint64{}, tracked: map[string]bool{}, ended: map[string]string{}}
+	c := &spConn{name: name, conn: conn, reqs: map[uint32]spFrame{}, held: map[string]*holder{}, cver: map[string]uint64{}, tracked: map[string]bool{}, ended: map[string]string{}, app: map[string]int{}}
 	r.uidOf[name] = conn.Client.ID()
 	return c, nil
 }
@@ -512,6 +513,9 @@ func (r *spRunner) consume(c *spConn) []spVerdict {
 				delete(c.ended, req.K)
 				c.held[req.K] = &holder{}
 				c.cver[req.K] = uint64(req.Ver) // the version the client supplied
+				if req.Ver == 0 {
+					delete(c.app, req.K)
+				}
 				for _, p := range rep.SubRefresh.Items {
 					pf, v := r.takePub(c, p, "track-reply-item")
 					if v != nil {
@@ -521,6 +525,7 @@ func (r *spRunner) consume(c *spConn) []spVerdict {
 						vs = append(vs, spVerdict{"version-not-increasing:track-reply-item", fmt.Sprintf("track reply carries key %s version %d, the client supplied %d", p.Key, p.Version, c.cver[p.Key])})
 					}
 					c.cver[p.Key] = p.Version
+					c.app[p.Key] = pf.Data
 					f.Ver, f.Data = pf.Ver, pf.Data
 				}
 			} else {
@@ -552,6 +557,7 @@ func (r *spRunner) consume(c *spConn) []spVerdict {
 				vs = append(vs, *v)
 			}
 			c.cver[p.Key] = p.Version
+			c.app[p.Key] = pf.Data
 			c.seen = append(c.seen, pf)
 		case rep.Push != nil && rep.Push.Channel == r.ch && rep.Push.Unsubscribe != nil:
 			for k := range c.tracked {
@@ -1278,12 +1284,8 @@ func (r *spRunner) freeRun(bi int, nops int, res *vh.Result) {
 				r.mu.Lock()
 				want := r.bk[k]
 				r.mu.Unlock()
-				h := c.held[k]
-				if h != nil && h.has && r.pl.idOf(h.held) == want.id {
-					continue
-				}
-				if (h == nil || !h.has) && r.versioned && c.cver[k] == want.ver {
-					continue // tracked with the newest version: nothing to send
+				if c.app[k] == want.id {
+					continue // the application has the newest payload (delivered, or kept from before it re-tracked with its version)
 				}
 				stale = fmt.Sprintf("connection %s tracks %s, the backend holds payload #%d (version %d), the connection has version %d", name, k, want.id, want.ver, c.cver[k])
 			}
